@@ -25,7 +25,8 @@ ENUM_EXHAUSTIVE = {
     "thorough": "all 256 qualifier subsets x all y sequences of length 3 over {absent,1,2,3}(+true,false without increase/decrease) x all 8 rest patterns; "
                 "the 256 subsets x {absent,1,2}^3 x 8 rest patterns again on a tracking variable (tracking name first with reversed qualifier order / last); "
                 "the 16 subsets of onmatch/latch/onchange/nocontrib x sequences over {absent, empty cell, 1, 2} containing an empty cell x 8 rest patterns; "
-                "the 256 subsets x sequences over {absent, 0, 1, 2} containing 0 x 8 rest patterns",
+                "the 256 subsets x sequences over {absent, 0, 1, 2} containing 0 x 8 rest patterns; "
+                "the 256 subsets x {absent,1,2}^3 x 8 rest patterns with the rest of the line written as a bare variable test",
 }
 
 YS_NUM = [None, "1", "2", "3"]
@@ -68,6 +69,16 @@ def _zero_cases():
                     yield {"quals": list(qs), "ys": list(yseq), "rest": list(rest)}
 
 
+def _varrest_cases():
+    """the rest of the line is a bare variable test written after the assignment ('@r.asbool', r set from
+    column 1 earlier on the line) instead of an equality"""
+    for r in range(len(assign.QUALS) + 1):
+        for qs in itertools.combinations(assign.QUALS, r):
+            for yseq in itertools.product([None, "1", "2"], repeat=3):
+                for rest in itertools.product([True, False], repeat=3):
+                    yield {"quals": list(qs), "ys": list(yseq), "rest": list(rest), "rest_form": "var"}
+
+
 BLANK_QUALS = ["onmatch", "latch", "onchange", "nocontrib"]
 
 
@@ -89,8 +100,9 @@ def enumerate_cases(tier, seed):
         yield from _tracked_cases()
         yield from _blank_cases()
         yield from _zero_cases()
+        yield from _varrest_cases()
         return
-    for j, fam in enumerate((_tracked_cases, _blank_cases, _zero_cases)):
+    for j, fam in enumerate((_tracked_cases, _blank_cases, _zero_cases, _varrest_cases)):
         for i, c in enumerate(fam()):
             if core.hash32(seed, "c14x", j, i) % 1000 < 35:
                 yield c
@@ -159,13 +171,18 @@ def run_case(case, sb):
     rel = sb.write_csv("f.csv", records)
     tracked = bool((case.get("form") or {}).get("track"))
     read = "@x.k" if tracked else "@x"
-    text = f'${rel}[*][ push("xs", {read}) @x{qual_text(case)} = #2 #1 == "t" ]'
+    if case.get("rest_form") == "var":
+        text = f'${rel}[*][ push("xs", {read}) @r = equals(#1, "t") @x{qual_text(case)} = #2 @r.asbool ]'
+    else:
+        text = f'${rel}[*][ push("xs", {read}) @x{qual_text(case)} = #2 #1 == "t" ]'
     res = real.run_path(text)
     labels = ["q:" + n for n in case["quals"]] or ["q:none"]
     if tracked:
         labels.append("form:tracking-name-" + case["form"]["track"])
     if "" in case["ys"]:
         labels.append("y:empty-cell")
+    if case.get("rest_form") == "var":
+        labels.append("rest:bare-variable-test")
     if res["raised"]:
         steps, tol = expected(case)
         nontrivial = any((not s["write"]) or (False in s["votes"]) for s in steps)
